@@ -85,6 +85,20 @@ pub fn val_magic_len() -> BoxedStrategy<Blob> {
     .boxed()
 }
 
+/// keys of 16..40 bytes sharing a prefix of 15..24 bytes and differing in length ("documents/title/abc")
+pub fn key_path() -> BoxedStrategy<Blob> {
+    (
+        prop::sample::select(vec![&b"documents/title/"[..], &b"documents/title/attr"[..], &b"aaaaaaaaaaaaaaa"[..], &b"\xff\xff\xff\xff\xff\xff\xff\xff\xff\xff\xff\xff\xff\xff\xff\xff"[..]]),
+        vec(prop_oneof![Just(b'a'), Just(b'b'), Just(b'c'), Just(0u8), Just(0xffu8)], 0..=6),
+    )
+        .prop_map(|(p, suffix)| {
+            let mut v = p.to_vec();
+            v.extend(suffix);
+            Blob::Lit(v)
+        })
+        .boxed()
+}
+
 pub fn key_any() -> BoxedStrategy<Blob> {
     prop_oneof![
         6 => key_tiny(),
@@ -92,6 +106,7 @@ pub fn key_any() -> BoxedStrategy<Blob> {
         4 => key_bytes(),
         2 => key_long(),
         1 => key_magic_len(),
+        2 => key_path(),
     ]
     .boxed()
 }
@@ -259,6 +274,7 @@ pub fn entry_src(tier: Tier) -> BoxedStrategy<EntrySrc> {
         2 => list_src(key_bytes(), val_any(big), max),
         2 => list_src(key_long(), val_small(), 60),
         2 => list_src(key_half_block(), val_small(), 60),
+        2 => list_src(key_path(), val_any(big), 200),
         2 => list_src(key_any(), val_any(big), max),
         1 => list_src(key_magic_len(), prop_oneof![val_small(), val_magic_len()].boxed(), 40),
         3 => counter_src(max as u32),
